@@ -1603,6 +1603,11 @@ pub fn run_plan(plan: &Plan, profile: &Profile, mon: &mut dyn Monitor, st: &mut 
             }
         }
     }
+    if st.want_sample() && w.trace.len() >= 7 {
+        let net = format!("{:?}", w.net);
+        let tr = w.trace.clone();
+        st.sample(|| serde_json::json!({"network": net, "executed": tr}));
+    }
     mon.on_end(&w, st)
 }
 
@@ -1677,6 +1682,15 @@ fn apply_and_observe(
                             }
                         }
                     }
+                }
+                if w.trace.len() < 40 {
+                    let kinds: Vec<String> = metas.iter().map(|m| match m.mutation { Some(mu) => format!("{}({})", m.kind, mu), None => m.kind.clone() }).collect();
+                    let res = match &outcome {
+                        Outcome::Ok(()) => "accepted".to_string(),
+                        Outcome::Rejected(e) => format!("rejected: {}", e.split('(').next().unwrap_or("")),
+                        Outcome::Panicked(_) => "panicked".to_string(),
+                    };
+                    w.trace.push(format!("h{} batch [{}] {}", pre.height, kinds.join(", "), res));
                 }
                 if trace_on() {
                     eprintln!("[h{}] batch of {}: {:?}", pre.height, txs.len(), outcome);
@@ -1764,6 +1778,16 @@ fn do_seal(w: &mut World, snap: &mut Snap, action: Option<ProposerAction>, mon: 
                         }
                     }
                 }
+            }
+            if w.trace.len() < 40 {
+                w.trace.push(format!(
+                    "h{} seal{} -> {} swap / {} deposit / {} withdrawal pool(s) settled",
+                    h,
+                    if action.is_some() { " with proposer action" } else { "" },
+                    trace.swaps.len(),
+                    trace.deposits.len(),
+                    trace.withdrawals.len()
+                ));
             }
             let ob = SealObs {
                 pre: &pre,
